@@ -25,21 +25,29 @@ A concrete atom is `name path tail` (`CAtom`, a structure):
   symbol `== != >= <= > <`, `lit : Lit` an integer dec/hex/oct, quoted byte string with any escape
   per byte, raw string `r#"…"#`, IPv4 dotted quad, IPv6 full or std `Display` form),
   `inInts ws₁ ws₂ ws₀ items` (`ws₁ in ws₂ { ws₀ item ws … item ws }`, every item `a` or `a..b` with
-  its own integer forms and the layout after it), `contains ws₁ ws₂ lit` (`lit` quoted or raw).
+  its own integer forms and the layout after it), `contains ws₁ ws₂ lit` (`lit` quoted or raw),
+  `inBytes ws₁ ws₂ ws₀ items` (the same set syntax with quoted / raw string items),
+  `inIps ws₁ ws₂ ws₀ items` (IPv4 items `a.b.c.d`, `a.b.c.d..e.f.g.h`, `a.b.c.d/len`),
+  `bitAnd ws₁ sym ws₂ form v` (`ws₁ & ws₂ v` / `ws₁ bitwise_and ws₂ v`),
+  `inList ws₁ ws₂ ty list name` (`ws₁ in ws₂ $name` on a left-hand side of type `ty` whose list
+  in the scheme is `list`).
 * `CAtom.boolField name`, `CAtom.cmp name ws₁ op sym ws₂ lit` (and `intCmp`, `bytesCmp`, `rawCmp`,
   `ipCmp`, `ip6Cmp`), `CAtom.inSet`, `CAtom.containsCmp` are the atoms with EMPTY path.
 * `CAtom.txt` = name ++ suffixes ++ tail text; `CAtom.node s` = the intended node
   `.comparison (.field i indexes) op` with `i` the index of `name` in the scheme, `indexes` the
   `FieldIndex` values of the suffixes and `op` = `isTrue` / `ordering op value` /
   `oneOf (int ranges)` (the ranges in the order written, `a` as `(a, a)`: nothing is merged or
-  sorted at parse time) / `contains bytes`;
+  sorted at parse time) / `contains bytes` / `oneOf (bytes strings)` / `oneOf (ip ranges)` (a single
+  address as its `/32` block) / `bitAnd v` / `inList list name`;
 * side conditions (`CAtom.ok`, decidable; spelled out in the hypotheses below): `nameOk` — the
   name is a dotted identifier `seg(.seg)*`; it is not the word `not` itself (a name that merely
   BEGINS with `not` — `notes`, `not_b`, `not.x` — is fine: `LogicalExpr::lex_unary_op` reads a
   registered name as that identifier, see `Props/C16Ident.lean`); the scheme has a field of
   exactly that name, the path is WELL-TYPED for its declared type and ENDS in the tail's type
-  (`fieldPathTy`: `Bool` for a bare atom, the literal's type, `Int` for `in {…}`, `Bytes` for
-  `contains`; by recursion on the type: `path_typing_by_type`); every suffix is well-formed
+  (`fieldPathTy`: `Bool` for a bare atom, the literal's type, the item type for `in {…}`, `Bytes`
+  for `contains`, `Int` for `&`, the list's type for `in $name`; by recursion on the type:
+  `path_typing_by_type`); for `in $name` the scheme has a list registered for that type and the
+  name is a run of `a-z 0-9 _ .` not beginning or ending with `.` (`Tail.schemeOk`, `listNameOk`); every suffix is well-formed
   (`Ix.ok`: layout is layout, `k < 2^32`, unescaped key bytes printable ASCII, key bytes UTF-8);
   the tail is (`Tail.ok`: layout is layout; `Lit.ok` — the integer is an `i64`, non-negative for
   hex/octal, unescaped bytes printable ASCII, ≤ 255 hashes and no early terminator in a raw body,
@@ -51,6 +59,11 @@ A concrete atom is `name path tail` (`CAtom`, a structure):
   Nothing is asked of the continuation beyond `Stop` (end of input, a space, `)`, with
   `tight` also `&`, `|`, `^`): none of these extends a digit run, an address, an identifier or an
   index chain.
+
+Section 1d treats the map-each suffix `[*]` and quantifier calls `any( … )` / `all( … )` over such
+comparisons SEPARATELY (`EAtom`, `quantifier_parses`, `quantifier_filter_parses`): they cannot be
+`GoodAtom`s (`each_atom_not_goodAtom`, `quantifier_not_goodAtom`), so they are not atoms of
+`parse_render_concrete`.
 
 Property theorems only.
 -/
@@ -317,6 +330,300 @@ theorem contains_parses (env : PEnv) (tight : Bool) (name : List Char) (path : L
                (.contains lit.bytes), ty := .bool }, rest) :=
   (goodAtom_contains env tight name path ws₁ ws₂ lit hname hnot hpath hfield h₁ h₂ hlit hty
     hsep).parses n rest hstop
+
+/-! ## 1c. `in {…}` on `Bytes` and `Ip`, `&` / `bitwise_and`, `in $list` -/
+
+/-- **goodAtom_inBytesSet**: `name path ws₁ in ws₂ { ws₀ item ws … item ws }` for a left-hand side
+of type `Bytes`; every item a quoted (any escape per byte) or raw literal, every item but the last
+followed by at least one layout character -/
+theorem goodAtom_inBytesSet (env : PEnv) (tight : Bool) (name : List Char) (path : List Ix)
+    (ws₁ ws₂ ws₀ : Input) (items : List (Lit × Input))
+    (hname : nameOk name = true) (hnot : name ≠ "not".toList)
+    (hpath : path.all Ix.ok = true)
+    (hfield : fieldPathTy env.scheme name (path.map Ix.val) .bytes = true)
+    (h₁ : Layout ws₁ = true) (h₂ : Layout ws₂ = true) (h₀ : Layout ws₀ = true)
+    (hitems : ∀ it ∈ items, it.1.ok = true ∧ it.1.ty = .bytes ∧ Layout it.2 = true)
+    (hsepi : bytesItemsSep items = true) (hsep : path ≠ [] ∨ ws₁ ≠ []) :
+    GoodAtom env (atoms env.scheme) tight ⟨name, path, .inBytes ws₁ ws₂ ws₀ items⟩ :=
+  goodAtom env tight _ (CAtom.ok_of hname hnot hpath
+    (by simp only [Tail.ok, h₁, h₂, h₀, hsepi, Bool.true_and, Bool.and_true, List.all_eq_true,
+          bytesItemOk, Bool.and_eq_true, beq_iff_eq]
+        exact fun it hit => ⟨⟨(hitems it hit).1, (hitems it hit).2.1⟩, (hitems it hit).2.2⟩)
+    hfield
+    (hsep.imp id fun h => ⟨by
+      cases ws₁ with
+      | nil => exact absurd rfl h
+      | cons _ _ => simp [Tail.sepFromName], fun ht => by cases ht⟩))
+
+/-- the first clause of `goodAtom_inBytesSet` with text and node spelled out: the node is
+`OneOf(RhsValues::Bytes(strings))`, the strings in the order written (`bytesItemsVal`) -/
+theorem inBytesSet_parses (env : PEnv) (tight : Bool) (name : List Char) (path : List Ix)
+    (ws₁ ws₂ ws₀ : Input) (items : List (Lit × Input))
+    (hname : nameOk name = true) (hnot : name ≠ "not".toList)
+    (hpath : path.all Ix.ok = true)
+    (hfield : fieldPathTy env.scheme name (path.map Ix.val) .bytes = true)
+    (h₁ : Layout ws₁ = true) (h₂ : Layout ws₂ = true) (h₀ : Layout ws₀ = true)
+    (hitems : ∀ it ∈ items, it.1.ok = true ∧ it.1.ty = .bytes ∧ Layout it.2 = true)
+    (hsepi : bytesItemsSep items = true) (hsep : path ≠ [] ∨ ws₁ ≠ [])
+    (n : Nat) (rest : Input) (hstop : Stop tight rest = true) :
+    comparisonL env (lowerOf env n)
+        (name ++ (pathTxt path ++ (ws₁ ++ ("in".toList ++
+          (ws₂ ++ ('{' :: (ws₀ ++ (bytesItemsTxt items ++ ['}']))))))) ++ rest) =
+      .ok ({ node := .comparison (.field (fieldIx env.scheme name) (path.map Ix.val))
+               (.oneOf (.bytes (bytesItemsVal items))), ty := .bool }, rest) :=
+  (goodAtom_inBytesSet env tight name path ws₁ ws₂ ws₀ items hname hnot hpath hfield h₁ h₂ h₀
+    hitems hsepi hsep).parses n rest hstop
+
+/-- **goodAtom_inIpSet**: `name path ws₁ in ws₂ { ws₀ item ws … item ws }` for a left-hand side of
+type `Ip`; every item an IPv4 dotted quad `a.b.c.d`, an explicit range `a.b.c.d..e.f.g.h` (first
+≤ last) or a block `a.b.c.d/len` (`len ≤ 32`, no host bit set) -/
+theorem goodAtom_inIpSet (env : PEnv) (tight : Bool) (name : List Char) (path : List Ix)
+    (ws₁ ws₂ ws₀ : Input) (items : List IpItem)
+    (hname : nameOk name = true) (hnot : name ≠ "not".toList)
+    (hpath : path.all Ix.ok = true)
+    (hfield : fieldPathTy env.scheme name (path.map Ix.val) .ip = true)
+    (h₁ : Layout ws₁ = true) (h₂ : Layout ws₂ = true) (h₀ : Layout ws₀ = true)
+    (hitems : ∀ it ∈ items, it.ok = true) (hsepi : ipItemsSep items = true)
+    (hsep : path ≠ [] ∨ ws₁ ≠ []) :
+    GoodAtom env (atoms env.scheme) tight ⟨name, path, .inIps ws₁ ws₂ ws₀ items⟩ :=
+  goodAtom env tight _ (CAtom.ok_of hname hnot hpath
+    (by simp only [Tail.ok, h₁, h₂, h₀, hsepi, Bool.true_and, Bool.and_true, List.all_eq_true]
+        exact hitems) hfield
+    (hsep.imp id fun h => ⟨by
+      cases ws₁ with
+      | nil => exact absurd rfl h
+      | cons _ _ => simp [Tail.sepFromName], fun ht => by cases ht⟩))
+
+/-- the first clause of `goodAtom_inIpSet` with text and node spelled out: the node is
+`OneOf(RhsValues::Ip(ranges))` with the ranges in the order written (`ip_set_items_in_order`) -/
+theorem inIpSet_parses (env : PEnv) (tight : Bool) (name : List Char) (path : List Ix)
+    (ws₁ ws₂ ws₀ : Input) (items : List IpItem)
+    (hname : nameOk name = true) (hnot : name ≠ "not".toList)
+    (hpath : path.all Ix.ok = true)
+    (hfield : fieldPathTy env.scheme name (path.map Ix.val) .ip = true)
+    (h₁ : Layout ws₁ = true) (h₂ : Layout ws₂ = true) (h₀ : Layout ws₀ = true)
+    (hitems : ∀ it ∈ items, it.ok = true) (hsepi : ipItemsSep items = true)
+    (hsep : path ≠ [] ∨ ws₁ ≠ [])
+    (n : Nat) (rest : Input) (hstop : Stop tight rest = true) :
+    comparisonL env (lowerOf env n)
+        (name ++ (pathTxt path ++ (ws₁ ++ ("in".toList ++
+          (ws₂ ++ ('{' :: (ws₀ ++ (ipItemsTxt items ++ ['}']))))))) ++ rest) =
+      .ok ({ node := .comparison (.field (fieldIx env.scheme name) (path.map Ix.val))
+               (.oneOf (.ip (ipItemsVal items))), ty := .bool }, rest) :=
+  (goodAtom_inIpSet env tight name path ws₁ ws₂ ws₀ items hname hnot hpath hfield h₁ h₂ h₀ hitems
+    hsepi hsep).parses n rest hstop
+
+/-- **ip_set_items_in_order**: the value and the text of a written address set, item by item — a
+single address is the `/32` block (`IpCidr::from_str` on a string without `/`), `a..b` the explicit
+range, `a/len` the block; order and duplicates are kept, nothing is merged -/
+theorem ip_set_items_in_order :
+    ipItemsVal [] = [] ∧
+    (∀ a ws r, ipItemsVal (.single a ws :: r) = .cidr false a 32 :: ipItemsVal r) ∧
+    (∀ a b ws r, ipItemsVal (.range a b ws :: r) = .explicit false a b :: ipItemsVal r) ∧
+    (∀ a len ws r, ipItemsVal (.cidr a len ws :: r) = .cidr false a len :: ipItemsVal r) ∧
+    (∀ r, ipItemsTxt [] = [] ∧
+      (∀ a ws, ipItemsTxt (.single a ws :: r) = dotted a ++ (ws ++ ipItemsTxt r)) ∧
+      (∀ a b ws, ipItemsTxt (.range a b ws :: r) =
+        (dotted a ++ ('.' :: '.' :: dotted b)) ++ (ws ++ ipItemsTxt r)) ∧
+      (∀ a len ws, ipItemsTxt (.cidr a len ws :: r) =
+        (dotted a ++ ('/' :: digits 10 len)) ++ (ws ++ ipItemsTxt r))) :=
+  ⟨rfl, fun _ _ _ => rfl, fun _ _ _ _ => rfl, fun _ _ _ _ => rfl,
+    fun _ => ⟨rfl, fun _ _ => rfl, fun _ _ _ => rfl, fun _ _ _ => rfl⟩⟩
+
+/-- **ip6_set_items_in_order**: IPv6 items written in full (eight hex groups, `v6full`): a single
+address is the `/128` block, `a..b` the explicit range, `a/len` the block (`len ≤ 128`, no host bit
+set); IPv4 and IPv6 items may be mixed in one set -/
+theorem ip6_set_items_in_order :
+    (∀ a ws r, ipItemsVal (.single6 a ws :: r) = .cidr true a 128 :: ipItemsVal r) ∧
+    (∀ a b ws r, ipItemsVal (.range6 a b ws :: r) = .explicit true a b :: ipItemsVal r) ∧
+    (∀ a len ws r, ipItemsVal (.cidr6 a len ws :: r) = .cidr true a len :: ipItemsVal r) ∧
+    (∀ r, (∀ a ws, ipItemsTxt (.single6 a ws :: r) = v6full a ++ (ws ++ ipItemsTxt r)) ∧
+      (∀ a b ws, ipItemsTxt (.range6 a b ws :: r) =
+        (v6full a ++ ('.' :: '.' :: v6full b)) ++ (ws ++ ipItemsTxt r)) ∧
+      (∀ a len ws, ipItemsTxt (.cidr6 a len ws :: r) =
+        (v6full a ++ ('/' :: digits 10 len)) ++ (ws ++ ipItemsTxt r))) ∧
+    (∀ a ws, (IpItem.single6 a ws).ok = (decide (a < 2 ^ 128) && Layout ws)) ∧
+    (∀ a b ws, (IpItem.range6 a b ws).ok =
+      (decide (a < 2 ^ 128) && decide (b < 2 ^ 128) && decide (a ≤ b) && Layout ws)) ∧
+    (∀ a len ws, (IpItem.cidr6 a len ws).ok =
+      (decide (a < 2 ^ 128) && decide (len ≤ 128) && decide (a % 2 ^ (128 - len) = 0) &&
+        Layout ws)) :=
+  ⟨fun _ _ _ => rfl, fun _ _ _ _ => rfl, fun _ _ _ _ => rfl,
+    fun _ => ⟨fun _ _ => rfl, fun _ _ _ => rfl, fun _ _ _ => rfl⟩,
+    fun _ _ => rfl, fun _ _ _ => rfl, fun _ _ _ => rfl⟩
+
+/-- **bytes_set_items_in_order**: the same for byte-string sets -/
+theorem bytes_set_items_in_order :
+    bytesItemsVal [] = [] ∧
+    (∀ l ws r, bytesItemsVal ((l, ws) :: r) = l.bytes :: bytesItemsVal r) ∧
+    bytesItemsTxt [] = [] ∧
+    (∀ l ws r, bytesItemsTxt ((l, ws) :: r) = l.txt ++ (ws ++ bytesItemsTxt r)) :=
+  ⟨rfl, fun _ _ _ => rfl, rfl, fun _ _ _ => rfl⟩
+
+/-- **goodAtom_bitAnd**: `name path ws₁ & ws₂ v` and `name path ws₁ bitwise_and ws₂ v` for a
+left-hand side of type `Int`, the mask an `i64` in decimal / `0x` hex / `0` octal. The symbol may
+be glued to a bare name (`i&1`), the word may not (`ibitwise_and 1` is an identifier). -/
+theorem goodAtom_bitAnd (env : PEnv) (tight : Bool) (name : List Char) (path : List Ix)
+    (ws₁ ws₂ : Input) (sym : Bool) (form : IntForm) (v : Int)
+    (hname : nameOk name = true) (hnot : name ≠ "not".toList)
+    (hpath : path.all Ix.ok = true)
+    (hfield : fieldPathTy env.scheme name (path.map Ix.val) .int = true)
+    (h₁ : Layout ws₁ = true) (h₂ : Layout ws₂ = true)
+    (hform : form.admits v = true) (hv : inI64 v = true)
+    (hsep : path ≠ [] ∨ sym = true ∨ ws₁ ≠ []) :
+    GoodAtom env (atoms env.scheme) tight ⟨name, path, .bitAnd ws₁ sym ws₂ form v⟩ :=
+  goodAtom env tight _ (CAtom.ok_of hname hnot hpath (by simp [Tail.ok, h₁, h₂, hform, hv]) hfield
+    (hsep.imp id fun h => ⟨by
+      rcases h with h | h
+      · simp [Tail.sepFromName, h]
+      · cases ws₁ with
+        | nil => exact absurd rfl h
+        | cons _ _ => simp [Tail.sepFromName], fun ht => by cases ht⟩))
+
+/-- the first clause of `goodAtom_bitAnd` with text and node spelled out: the node is
+`ComparisonOpExpr::Int { op: BitwiseAnd, rhs: v }` of type `Bool` -/
+theorem bitAnd_parses (env : PEnv) (tight : Bool) (name : List Char) (path : List Ix)
+    (ws₁ ws₂ : Input) (sym : Bool) (form : IntForm) (v : Int)
+    (hname : nameOk name = true) (hnot : name ≠ "not".toList)
+    (hpath : path.all Ix.ok = true)
+    (hfield : fieldPathTy env.scheme name (path.map Ix.val) .int = true)
+    (h₁ : Layout ws₁ = true) (h₂ : Layout ws₂ = true)
+    (hform : form.admits v = true) (hv : inI64 v = true)
+    (hsep : path ≠ [] ∨ sym = true ∨ ws₁ ≠ [])
+    (n : Nat) (rest : Input) (hstop : Stop tight rest = true) :
+    comparisonL env (lowerOf env n)
+        (name ++ (pathTxt path ++ (ws₁ ++ ((if sym then "&" else "bitwise_and").toList ++
+          (ws₂ ++ renderInt form v)))) ++ rest) =
+      .ok ({ node := .comparison (.field (fieldIx env.scheme name) (path.map Ix.val))
+               (.bitAnd v), ty := .bool }, rest) :=
+  (goodAtom_bitAnd env tight name path ws₁ ws₂ sym form v hname hnot hpath hfield h₁ h₂ hform hv
+    hsep).parses n rest hstop
+
+/-- the two spellings are exactly the `lex_enum!` entries of `IntOp` -/
+theorem bitwise_and_aliases_exact :
+    (∀ sym, (andAlias sym, CompOp.bitAnd) ∈ comparisonOps) ∧
+    (∀ e ∈ comparisonOps, e.2 = CompOp.bitAnd → ∃ sym, e.1 = andAlias sym) := by
+  refine ⟨fun sym => by cases sym <;> decide, ?_⟩
+  intro e he h2
+  simp only [comparisonOps, orderingOps, List.map_cons, List.map_nil, List.cons_append,
+    List.nil_append, List.mem_cons, List.not_mem_nil, or_false] at he
+  rcases he with rfl | rfl | rfl | rfl | rfl | rfl | rfl | rfl | rfl | rfl | rfl | rfl | rfl |
+    rfl | rfl | rfl | rfl | rfl | rfl | rfl <;>
+    first | exact ⟨true, rfl⟩ | exact ⟨false, rfl⟩ | cases h2
+
+/-- **goodAtom_inList**: `name path ws₁ in ws₂ $listname` for a left-hand side of type `ty` ∈
+{`Int`, `Ip`, `Bytes`} for which the scheme has a list registered (`Scheme::get_list`, index
+`list`); the list name is a non-empty run of `a-z 0-9 _ .` that neither begins nor ends with `.`
+(`listNameOk`; the alphabet of `impl Lex for ListName`) -/
+theorem goodAtom_inList (env : PEnv) (tight : Bool) (name : List Char) (path : List Ix)
+    (ws₁ ws₂ : Input) (ty : Ty) (list : Nat) (listName : List Char)
+    (hname : nameOk name = true) (hnot : name ≠ "not".toList)
+    (hpath : path.all Ix.ok = true)
+    (hfield : fieldPathTy env.scheme name (path.map Ix.val) ty = true)
+    (h₁ : Layout ws₁ = true) (h₂ : Layout ws₂ = true)
+    (hty : ty = .int ∨ ty = .ip ∨ ty = .bytes)
+    (hlist : env.scheme.getList ty = some list)
+    (hln : listNameOk listName = true)
+    (hsep : path ≠ [] ∨ ws₁ ≠ []) :
+    GoodAtom env (atoms env.scheme) tight ⟨name, path, .inList ws₁ ws₂ ty list listName⟩ :=
+  goodAtom env tight _ (CAtom.ok_of hname hnot hpath
+    (by rcases hty with h | h | h <;> simp [Tail.ok, h₁, h₂, hln, h]) hfield
+    (hsep.imp id fun h => ⟨by
+      cases ws₁ with
+      | nil => exact absurd rfl h
+      | cons _ _ => simp [Tail.sepFromName], fun ht => by cases ht⟩)
+    (by simp [Tail.schemeOk, hlist]))
+
+/-- the first clause of `goodAtom_inList` with text and node spelled out: the node is
+`ComparisonOpExpr::InList { list, name }` with `list` the scheme's list for the type -/
+theorem inList_parses (env : PEnv) (tight : Bool) (name : List Char) (path : List Ix)
+    (ws₁ ws₂ : Input) (ty : Ty) (list : Nat) (listName : List Char)
+    (hname : nameOk name = true) (hnot : name ≠ "not".toList)
+    (hpath : path.all Ix.ok = true)
+    (hfield : fieldPathTy env.scheme name (path.map Ix.val) ty = true)
+    (h₁ : Layout ws₁ = true) (h₂ : Layout ws₂ = true)
+    (hty : ty = .int ∨ ty = .ip ∨ ty = .bytes)
+    (hlist : env.scheme.getList ty = some list)
+    (hln : listNameOk listName = true)
+    (hsep : path ≠ [] ∨ ws₁ ≠ [])
+    (n : Nat) (rest : Input) (hstop : Stop tight rest = true) :
+    comparisonL env (lowerOf env n)
+        (name ++ (pathTxt path ++ (ws₁ ++ ("in".toList ++ (ws₂ ++ ('$' :: listName))))) ++ rest) =
+      .ok ({ node := .comparison (.field (fieldIx env.scheme name) (path.map Ix.val))
+               (.inList list listName), ty := .bool }, rest) :=
+  (goodAtom_inList env tight name path ws₁ ws₂ ty list listName hname hnot hpath hfield h₁ h₂ hty
+    hlist hln hsep).parses n rest hstop
+
+/-- **in_list_needs_registered_list**: without a list registered for the field's type, `in $name`
+is rejected (`UnsupportedOp`-style error of `lex_with_lhs`), whatever the name -/
+theorem in_list_needs_registered_list (env : PEnv) (lhs : IExpr) (ty : Ty)
+    (hty : ty = .int ∨ ty = .ip ∨ ty = .bytes) (hnone : env.scheme.getList ty = none)
+    (ws₁ ws₂ : Input) (h₁ : Layout ws₁ = true) (h₂ : Layout ws₂ = true) (listName rest : Input) :
+    ∃ e, cmpWithLhs env lhs ty (ws₁ ++ ("in".toList ++ (ws₂ ++ ('$' :: (listName ++ rest))))) =
+      .error e :=
+  Atoms.inList_unregistered env lhs ty hty hnone ws₁ ws₂ h₁ h₂ listName rest
+
+/-! ## 1d. The map-each suffix `[*]` and quantifier calls
+
+`EAtom` (`Lemmas/Atoms/Each.lean`) is `name path tail` where `path : List EIx` may contain
+`[ws₁ * ws₂]` next to the suffixes of `Ix`, and contains at least one. These are NOT `GoodAtom`s and
+quantifier calls are not either (`each_atom_not_goodAtom`, `quantifier_not_goodAtom`): they are
+stated on their own, not as atoms of `parse_render_concrete`. -/
+
+/-- **each_atom_is_array_of_bool**: `ComparisonExpr::lex_with` reads `name path tail` with `[*]` in
+a path that is well-typed for the field (`[*]` on an array or a map steps to the element type) to
+the comparison on the indexed field — of type `Array(Bool)`: the comparison is mapped over the
+elements. Side conditions `EAtom.ok`: valid name other than `not`, well-formed suffixes and tail,
+the scheme has the field, the path ends in the tail's type, ≥ 1 `[*]`. -/
+theorem each_atom_is_array_of_bool (env : PEnv) (n : Nat) (tight : Bool) (a : EAtom)
+    (hok : a.ok env.scheme = true) (rest : Input) (hstop : Stop tight rest = true) :
+    comparisonL env (lowerOf env n) (a.name ++ (epathTxt a.path ++ a.tail.txt) ++ rest) =
+      .ok ({ node := .comparison (.field (fieldIx env.scheme a.name) (a.path.map EIx.val))
+               a.tail.op, ty := .array .bool }, rest) :=
+  eachAtom_comparison env (lowerOf env n) tight a hok rest hstop
+
+/-- **quantifier_parses**: `any ws₀ ( ws₁ name path tail ws₂ )` and `all …` — `tail` a proper
+comparison (not the bare `Bool` case: `any(flags[*])` is rejected, an index expression with `[*]`
+never is an `Array(Bool)` argument) — are read by `LogicalExpr::lex_simple_expr` to
+`Quantifier { op, arg: Logical(comparison) }` of type `Bool`, at every nesting budget ≥ 1,
+whatever follows the closing parenthesis -/
+theorem quantifier_parses (env : PEnv) (n : Nat) (q : QOp) (ws₀ ws₁ ws₂ : Input) (a : EAtom)
+    (h₀ : Layout ws₀ = true) (h₁ : Layout ws₁ = true) (h₂ : Layout ws₂ = true)
+    (hok : a.ok env.scheme = true) (hcmp : a.tail ≠ .isTrue) (rest : Input) :
+    simpleL env (lowerOf env (n + 1))
+        ((match q with | .any => "any" | .all => "all").toList ++ (ws₀ ++ '(' :: (ws₁ ++
+          ((a.name ++ (epathTxt a.path ++ a.tail.txt)) ++ (ws₂ ++ ')' :: rest))))) =
+      .ok ({ node := .quantifier q (.logical
+               (.comparison (.field (fieldIx env.scheme a.name) (a.path.map EIx.val)) a.tail.op)),
+             ty := .bool }, rest) := by
+  have := quantifier_simple env n q ws₀ ws₁ ws₂ a h₀ h₁ h₂ hok hcmp rest
+  cases q <;> exact this
+
+/-- **quantifier_filter_parses**: the same as a whole filter through `FilterParser::parse`
+(nesting budget ≥ 1; `htrim`: the text is what `str::trim` leaves — decidable on a given text) -/
+theorem quantifier_filter_parses (env : PEnv) (q : QOp) (ws₀ ws₁ ws₂ : Input) (a : EAtom)
+    (h₀ : Layout ws₀ = true) (h₁ : Layout ws₁ = true) (h₂ : Layout ws₂ = true)
+    (hok : a.ok env.scheme = true) (hcmp : a.tail ≠ .isTrue) (hd : 1 ≤ env.st.maxDepth)
+    (htrim : trim ((quantWord q).toList ++ (ws₀ ++ '(' :: (ws₁ ++ (a.txt ++ (ws₂ ++ [')']))))) =
+      (quantWord q).toList ++ (ws₀ ++ '(' :: (ws₁ ++ (a.txt ++ (ws₂ ++ [')']))))) :
+    parseFilter env ((quantWord q).toList ++ (ws₀ ++ '(' :: (ws₁ ++ (a.txt ++ (ws₂ ++ [')']))))) =
+      .ok (.quantifier q (.logical (a.node env.scheme))) :=
+  quantifier_filter env q ws₀ ws₁ ws₂ a h₀ h₁ h₂ hok hcmp hd htrim
+
+/-- **each_atom_not_goodAtom**: no choice of intended node makes an atom with `[*]` a `GoodAtom`
+(its comparison has type `Array(Bool)`, `GoodAtom.parses` asks for `Bool`) -/
+theorem each_atom_not_goodAtom {α : Type} (env : PEnv) (A : Atoms α) (tight : Bool) (x : α)
+    (a : EAtom) (hok : a.ok env.scheme = true) (htxt : A.txt x = a.txt) :
+    ¬ GoodAtom env A tight x :=
+  eachAtom_not_goodAtom env A tight x a hok htxt
+
+/-- **quantifier_not_goodAtom**: no text `any ws₀ ( …` / `all ws₀ ( …` is the text of a `GoodAtom`
+(`GoodAtom.noQuant` asks that it is NOT taken for a quantifier call): `parse_render_logical` as
+stated cannot have quantifier calls among its atoms -/
+theorem quantifier_not_goodAtom {α : Type} (env : PEnv) (A : Atoms α) (tight : Bool) (x : α)
+    (q : QOp) (ws₀ t : Input) (h₀ : Layout ws₀ = true)
+    (htxt : A.txt x = (quantWord q).toList ++ (ws₀ ++ '(' :: t)) : ¬ GoodAtom env A tight x :=
+  Atoms.quantifier_not_goodAtom env A tight x q ws₀ t h₀ htxt
 
 /-- **all of them at once**, on the decidable side condition `CAtom.ok` -/
 theorem goodAtom_concrete (env : PEnv) (tight : Bool) (a : CAtom)
@@ -655,6 +962,205 @@ example :
     (match parseFilter env "any [0]".toList with | .ok _ => true | .error _ => false) = false :=
   ⟨goodAtom_indexedBool _ true _ _ (by decide) (by decide) (by decide) (by decide)
     (.inl (by decide)), by decide⟩
+
+/-! ### `in {…}` on `Bytes` / `Ip`, `&` / `bitwise_and`, `in $list`
+
+the scheme has lists registered for `Int` (list 0) and `Ip` (list 1), none for `Bytes` -/
+
+/-- the side conditions hold of `http.host in {"a" r#"b"#}`, `http.host in{ "\x61"⏎r"b" }`,
+`ip.src in {10.0.0.1 10.0.0.0..10.0.0.255 192.168.0.0/16}` (and with other layout), `i & 0x10`,
+`i&16`, `i bitwise_and 16`, `tcp.port in $bad.ports`, `tcp.port in$bad.ports`,
+`ip.src in $nets_1` -/
+example : ∀ a ∈ [aHostIn, aHostInAlt, aSrcIn, aSrcInAlt, aMask, aMaskSym, aMaskWord, aList,
+      aListAlt, aListIp], a.ok cScheme = true := by decide
+
+/-- their texts -/
+example : (atoms cScheme).txt aHostIn = "http.host in {\"a\" r#\"b\"#}".toList ∧
+    (atoms cScheme).txt aHostInAlt = "http.host in{ \"\\x61\"\nr\"b\" }".toList ∧
+    (atoms cScheme).txt aSrcIn =
+      "ip.src in {10.0.0.1 10.0.0.0..10.0.0.255 192.168.0.0/16}".toList ∧
+    (atoms cScheme).txt aSrcInAlt =
+      "ip.src in{ 10.0.0.1\n10.0.0.0..10.0.0.255 192.168.0.0/16 }".toList ∧
+    (atoms cScheme).txt aMask = "i & 0x10".toList ∧
+    (atoms cScheme).txt aMaskSym = "i&16".toList ∧
+    (atoms cScheme).txt aMaskWord = "i bitwise_and 16".toList ∧
+    (atoms cScheme).txt aList = "tcp.port in $bad.ports".toList ∧
+    (atoms cScheme).txt aListAlt = "tcp.port in$bad.ports".toList ∧
+    (atoms cScheme).txt aListIp = "ip.src in $nets_1".toList :=
+  ⟨txt_aHostIn, txt_aHostInAlt, txt_aSrcIn, txt_aSrcInAlt, txt_aMask, txt_aMaskSym, txt_aMaskWord,
+    txt_aList, txt_aListAlt, txt_aListIp⟩
+
+/-- their nodes: the byte strings keep their format (quoted / raw with its hash count), a single
+address is the `/32` block, the mask is the integer, the list is the scheme's list for the type -/
+example : (atoms cScheme).node aHostIn =
+      .comparison (.field 4 [])
+        (.oneOf (.bytes [{ fmt := .quoted, data := [97] }, { fmt := .raw 1, data := [98] }])) ∧
+    (atoms cScheme).node aSrcInAlt =
+      .comparison (.field 3 [])
+        (.oneOf (.ip [.cidr false 167772161 32, .explicit false 167772160 167772415,
+          .cidr false 3232235520 16])) ∧
+    (atoms cScheme).node aMask = .comparison (.field 0 []) (.bitAnd 16) ∧
+    (atoms cScheme).node aMaskWord = .comparison (.field 0 []) (.bitAnd 16) ∧
+    (atoms cScheme).node aListAlt = .comparison (.field 2 []) (.inList 0 "bad.ports".toList) ∧
+    (atoms cScheme).node aListIp = .comparison (.field 3 []) (.inList 1 "nets_1".toList) :=
+  ⟨rfl, rfl, rfl, rfl, rfl, rfl⟩
+
+/-- **the worked example**: two spellings of
+`i & 0x10 and ip.src in {10.0.0.1 10.0.0.0..10.0.0.255 192.168.0.0/16} or tcp.port in $bad.ports`
+(the second `i&16&&ip.src in{ 10.0.0.1⏎10.0.0.0..10.0.0.255 192.168.0.0/16 }||tcp.port in$bad.ports`:
+the mask in decimal glued to `&`, which is glued to `&&`; a newline inside the braces; `in$`)
+parse to the same AST -/
+example : parseFilter cEnv cText₁₁ = .ok (canon (atoms cScheme) cSk₁₁) ∧
+    parseFilter cEnv cText₁₂ = .ok (canon (atoms cScheme) cSk₁₂) ∧
+    canon (atoms cScheme) cSk₁₁ = cAst₁₁ ∧ canon (atoms cScheme) cSk₁₂ = cAst₁₁ :=
+  ⟨parse_render_concrete cEnv true cSk₁₁ (by decide) _ cRenders₁₁ (by decide) (by decide),
+   parse_render_concrete cEnv true cSk₁₂ (by decide) _ cRenders₁₂ (by decide) (by decide),
+   rfl, rfl⟩
+
+/-- … and by the invariance theorem: the cores are equal (same mask, same ranges, same list) -/
+example : parseFilter cEnv cText₁₁ = parseFilter cEnv cText₁₂ :=
+  alias_layout_same_outcome_concrete cEnv true true cSk₁₁ cSk₁₂ (by decide) (by decide)
+    rfl _ _ cRenders₁₁ cRenders₁₂ (by decide) (by decide) (by decide)
+
+/-- `http.host in {"a" r#"b"#} and i bitwise_and 16` and
+`http.host in{ "\x61"⏎r"b" }&&i&16` both parse to their intended ASTs; these DIFFER in the second
+string's format (`r#"b"#` has one hash, `r"b"` none: `BytesFormat::Raw(n)` is part of the AST) -/
+example : parseFilter cEnv cText₁₃ = .ok (canon (atoms cScheme) cSk₁₃) ∧
+    parseFilter cEnv cText₁₄ = .ok (canon (atoms cScheme) cSk₁₄) ∧
+    canon (atoms cScheme) cSk₁₃ =
+      .combining .and
+        [.comparison (.field 4 [])
+          (.oneOf (.bytes [{ fmt := .quoted, data := [97] }, { fmt := .raw 1, data := [98] }])),
+         .comparison (.field 0 []) (.bitAnd 16)] ∧
+    canon (atoms cScheme) cSk₁₄ =
+      .combining .and
+        [.comparison (.field 4 [])
+          (.oneOf (.bytes [{ fmt := .quoted, data := [97] }, { fmt := .raw 0, data := [98] }])),
+         .comparison (.field 0 []) (.bitAnd 16)] :=
+  ⟨parse_render_concrete cEnv true cSk₁₃ (by decide) _ cRenders₁₃ (by decide) (by decide),
+   parse_render_concrete cEnv true cSk₁₄ (by decide) _ cRenders₁₄ (by decide) (by decide),
+   rfl, rfl⟩
+
+/-- IPv6 items (full form) and a mixed set:
+`ip.src in {0:0:0:0:0:0:0:1 0:0:0:0:0:0:0:0..0:0:0:0:0:0:0:1 0:0:0:0:0:0:0:0/127 10.0.0.1}` -/
+example : aSrc6In.ok cScheme = true ∧
+    parseFilter cEnv
+      "ip.src in {0:0:0:0:0:0:0:1 0:0:0:0:0:0:0:0..0:0:0:0:0:0:0:1 0:0:0:0:0:0:0:0/127 10.0.0.1}".toList =
+      .ok (.comparison (.field 3 [])
+        (.oneOf (.ip [.cidr true 1 128, .explicit true 0 1, .cidr true 0 127,
+          .cidr false 167772161 32]))) := by
+  refine ⟨by decide, ?_⟩
+  have e : (atoms cEnv.scheme).txt aSrc6In = _ := txt_aSrc6In
+  have := parse_render_concrete cEnv true (.atom aSrc6In) (by decide) _
+    (.simple (.atom aSrc6In)) (by decide) (by rw [e]; decide)
+  rw [e] at this
+  exact this
+
+/-- sharpness, `in {…}`: the item type must be the field's (`Ip` items on `Bytes`, strings on
+`Ip`, addresses on `Int`); a range needs first ≤ last; a block must have no host bit set and
+`len ≤ 32`; layout is not allowed around `..` or `/` -/
+example : ∀ t ∈ ["http.host in {10.0.0.1}", "ip.src in {\"a\"}", "i in {10.0.0.1}",
+      "ip.src in {10.0.0.2..10.0.0.1}", "ip.src in {10.0.0.1/8}", "ip.src in {10.0.0.0/33}",
+      "ip.src in {10.0.0.1 ..10.0.0.2}", "ip.src in {10.0.0.0 /8}", "ip.src in {10.0.0.1,10.0.0.2}"],
+    (match parseFilter cEnv t.toList with | .ok _ => true | .error _ => false) = false := by
+  decide
+
+/-- sharpness, `&`: the left-hand side must be an `Int` (not `Bytes`, not `Ip`, not the array);
+the word must be separated from a bare name, the symbol need not be; the mask is an `i64` -/
+example : (∀ t ∈ ["http.host & 1", "ip.src & 1", "tcp.ports & 1", "ibitwise_and 1",
+        "i & 9223372036854775808", "i & \"a\""],
+      (match parseFilter cEnv t.toList with | .ok _ => true | .error _ => false) = false) ∧
+    parseFilter cEnv "i&1".toList = .ok (.comparison (.field 0 []) (.bitAnd 1)) ∧
+    parseFilter cEnv "tcp.ports[0]bitwise_and 0x7fffffffffffffff".toList =
+      .ok (.comparison (.field 5 [.arr 0]) (.bitAnd 9223372036854775807)) :=
+  ⟨by decide, rfl, rfl⟩
+
+/-- sharpness, `in $name`: `Bytes` has no list in this scheme, so `http.host in $x` is rejected
+(by the general theorem too); the name is lower-case letters, digits, `_`, `.`, not beginning or
+ending with `.`, not empty; the word `in` must be separated from a bare name -/
+example : (∀ t ∈ ["http.host in $x", "tcp.port in $", "tcp.port in $.a", "tcp.port in $a.",
+        "tcp.port in $Bad", "tcp.port in $ a", "tcp.portin $a", "b in $a"],
+      (match parseFilter cEnv t.toList with | .ok _ => true | .error _ => false) = false) ∧
+    (∃ e, cmpWithLhs cEnv (.field 4 []) .bytes (" in $x".toList) = .error e) ∧
+    parseFilter cEnv "tcp.ports[0]in$a.b_0".toList =
+      .ok (.comparison (.field 5 [.arr 0]) (.inList 0 "a.b_0".toList)) :=
+  ⟨by decide,
+   in_list_needs_registered_list cEnv _ .bytes (.inr (.inr rfl)) (by decide) [' '] [' '] rfl rfl
+     "x".toList [],
+   rfl⟩
+
+/-! ### `[*]` and quantifier calls -/
+
+/-- the side conditions hold of `http.headers[ * ] contains "x"`, `m["a"][*] in {"v" r"w"}`,
+`tcp.ports[*] == 80`, `m[*][*]=="v"` -/
+example : ∀ a ∈ [eHdr, eM, ePorts, eMM], a.ok cScheme = true := by decide
+
+example : eHdr.txt = "http.headers[ * ] contains \"x\"".toList ∧
+    eM.txt = "m[\"a\"][*] in {\"v\" r\"w\"}".toList ∧
+    ePorts.txt = "tcp.ports[*] == 80".toList ∧ eMM.txt = "m[*][*]==\"v\"".toList :=
+  ⟨txt_eHdr, txt_eM, txt_ePorts, txt_eMM⟩
+
+/-- `all ( http.headers[ * ] contains "x" )`, `any(m["a"][*] in {"v" r"w"})`,
+`any(tcp.ports[*] == 80)`, `all\n(m[*][*]=="v" )` by the general theorem -/
+example : parseFilter cEnv "all ( http.headers[ * ] contains \"x\" )".toList =
+      .ok (.quantifier .all (.logical (.comparison (.field 6 [.each])
+        (.contains { fmt := .quoted, data := [120] })))) ∧
+    parseFilter cEnv "any(m[\"a\"][*] in {\"v\" r\"w\"})".toList =
+      .ok (.quantifier .any (.logical (.comparison (.field 7 [.key "a".toList, .each])
+        (.oneOf (.bytes [{ fmt := .quoted, data := [118] }, { fmt := .raw 0, data := [119] }]))))) ∧
+    parseFilter cEnv "any(tcp.ports[*] == 80)".toList =
+      .ok (.quantifier .any (.logical (.comparison (.field 5 [.each])
+        (.ordering .eq (.int 80))))) ∧
+    parseFilter cEnv "all\n(m[*][*]==\"v\" )".toList =
+      .ok (.quantifier .all (.logical (.comparison (.field 7 [.each, .each])
+        (.ordering .eq (.bytes { fmt := .quoted, data := [118] }))))) := by
+  refine ⟨?_, ?_, ?_, ?_⟩
+  · have := quantifier_filter_parses cEnv .all [' '] [' '] [' '] eHdr rfl rfl rfl (by decide)
+      (by decide) (by decide) (by rw [txt_eHdr]; decide)
+    rw [txt_eHdr] at this
+    exact this
+  · have := quantifier_filter_parses cEnv .any [] [] [] eM rfl rfl rfl (by decide)
+      (by decide) (by decide) (by rw [txt_eM]; decide)
+    rw [txt_eM] at this
+    exact this
+  · have := quantifier_filter_parses cEnv .any [] [] [] ePorts rfl rfl rfl (by decide)
+      (by decide) (by decide) (by rw [txt_ePorts]; decide)
+    rw [txt_ePorts] at this
+    exact this
+  · have := quantifier_filter_parses cEnv .all ['\n'] [] [' '] eMM rfl rfl rfl (by decide)
+      (by decide) (by decide) (by rw [txt_eMM]; decide)
+    rw [txt_eMM] at this
+    exact this
+
+/-- sharpness: a bare `[*]` expression is no quantifier argument (`any(flags[*])`,
+`any(tcp.ports[*])`), an argument without `[*]` is a `Bool`, not an `Array(Bool)`; an atom with
+`[*]` is no filter by itself (type `Array(Bool)`); `[*]` needs an array or a map; no layout
+between the name and `[`; `anyy` is an unknown identifier; a field called `not` cannot be written
+first (`not[*] == 1` is `not` applied to `[*] == 1`) -/
+example : (∀ t ∈ ["any(flags[*])", "any(tcp.ports[*])", "any(tcp.ports[0] == 1)",
+        "tcp.ports[*] == 80", "any(i[*] == 1)", "any(tcp.ports [*] == 80)",
+        "anyy(tcp.ports[*] == 80)", "any(tcp.ports[*] == 80", "any tcp.ports[*] == 80"],
+      (match parseFilter cEnv t.toList with | .ok _ => true | .error _ => false) = false) ∧
+    (let env : PEnv :=
+      { scheme := { fields := [⟨"not".toList, .array .int, false⟩], funcs := [], lists := [] },
+        st := {} }
+     (match parseFilter env "any(not[*] == 1)".toList with
+      | .ok _ => true | .error _ => false) = false) :=
+  ⟨by decide, by decide⟩
+
+/-- a quantifier call is an operand like any other for the combining operators (by evaluation;
+the skeleton theorem does not cover it, see `quantifier_not_goodAtom`) -/
+example : parseFilter cEnv "any (tcp.ports[*]==1)and b".toList =
+    .ok (.combining .and
+      [.quantifier .any (.logical (.comparison (.field 5 [.each]) (.ordering .eq (.int 1)))),
+       .comparison (.field 1 []) .isTrue]) := rfl
+
+/-- neither `tcp.ports[*] == 80` nor `any(tcp.ports[*] == 80)` is the text of a `GoodAtom` -/
+example (A : Atoms Unit) (tight : Bool) :
+    (A.txt () = ePorts.txt → ¬ GoodAtom cEnv A tight ()) ∧
+    (A.txt () = "any(tcp.ports[*] == 80)".toList → ¬ GoodAtom cEnv A tight ()) :=
+  ⟨fun h => each_atom_not_goodAtom cEnv A tight () ePorts (by decide) h,
+   fun h => quantifier_not_goodAtom cEnv A tight () .any [] "tcp.ports[*] == 80)".toList rfl h⟩
 
 end Examples
 
